@@ -82,6 +82,11 @@ func c05Stream(r *hx.Rand, tier string, n int, w *bufio.Writer) map[string]int {
 		limited := opbed.WebClient("limited", "secret-lim", "https://rp.example/cb")
 		limited.Grants = []oidc.GrantType{oidc.GrantTypeCode, oidc.GrantTypeRefreshToken}
 		cls = append(cls, &flowClient{c: limited})
+		// a native application that is nevertheless registered with a secret
+		natsec := opbed.NativeClient("natsec", "https://rp.example/cb")
+		natsec.Auth, natsec.Secret = oidc.AuthMethodBasic, "secret-nat"
+		natsec.Grants = append(natsec.Grants, oidc.GrantTypeTokenExchange)
+		cls = append(cls, &flowClient{c: natsec})
 		for _, fc := range cls {
 			bed.Store.AddClient(fc.c)
 		}
@@ -214,6 +219,12 @@ func c05Stream(r *hx.Rand, tier string, n int, w *bufio.Writer) map[string]int {
 			if auth.Kind == "basic-raw" {
 				l.S("cid", "").S("malformed", "1")
 			}
+		}
+		if endpoint == "token" && r.Chance(15) {
+			// grant_type carried in the URL query instead of the body
+			path += "?grant_type=" + url.QueryEscape(grant)
+			form.Del("grant_type")
+			l.B("grant.in.query", true)
 		}
 		waitClearOfSecondEdge()
 		t0 := time.Now()
